@@ -533,6 +533,348 @@ def run_host(ctx, stats):
 
 
 # --------------------------------------------------------------------------------------------
+# host registry over whole call histories (Host/LCDReg.v)
+# --------------------------------------------------------------------------------------------
+
+def hist_model_case(c):
+    ops = []
+    for op in c["hist"]:
+        if op[0] == "animate":
+            ops.append([0, CODE.get(str(op[1]).lower(), 9), int(op[2]), op[3], int(op[4]), bool(op[5])])
+        elif op[0] == "tick":
+            ops.append([1, int(op[1])])
+        elif op[0] == "line":
+            ops.append([2, int(op[1]), op[2]])
+        elif op[0] == "clear":
+            ops.append([3])
+        else:
+            ops.append([4])
+    return [7, c["cols"], c["rows"], ops]
+
+
+def hist_cut(c, k):
+    """the history cut after call number k (prefix-determined)"""
+    c2 = dict(c)
+    c2["hist"] = [list(o) for o in c["hist"][:k + 1]]
+    c2["cut_from"] = len(c["hist"])
+    return c2
+
+
+def hist_compare(ctx, c, m, r):
+    """correspondence of the registry model with the real object, call by call: verdict, buffer assignments, buffer, the
+    registry's key strings in dict order and every field of every registered state"""
+    if m == [2]:
+        ctx.disagree("host history: model could not decode the case (harness bug)", c, m, None)
+        return
+    if m[0] == 1:
+        if r["new"] == "ok":
+            ctx.disagree("host history LCD(): model raises, implementation constructs", c, m, r["new"])
+        return
+    if r["new"] != "ok":
+        ctx.disagree("host history LCD(): implementation raises, model constructs", c, m[0], r["new"])
+        return
+    for k, (mo, ro) in enumerate(zip(m[1], r["hist"])):
+        op = c["hist"][k]
+        what = f"host history, call #{k} {op[0]}"
+        if (mo[0] == 1) != (ro["status"] != "ok"):
+            ctx.disagree(f"{what}: raised?", hist_cut(c, k), mo[:1], ro["status"])
+            return
+        if op[0] in ("animate", "tick", "line") and dec_hevents(mo[1]) != ro["events"]:
+            ctx.disagree(f"{what}: buffer assignments", hist_cut(c, k), dec_hevents(mo[1]), ro["events"])
+            return
+        mbuf = [C.wstr(x) for x in mo[2]]
+        if mbuf != ro["snap"]["buffer"]:
+            ctx.disagree(f"{what}: buffer", hist_cut(c, k), mbuf, ro["snap"]["buffer"])
+            return
+        mkeys = [f"{STYLES[e[0][0]]}:{e[0][1]}:{e[0][2]}" for e in mo[3]]
+        if mkeys != ro["snap"]["keys"]:
+            ctx.disagree(f"{what}: registry keys (dict order)", hist_cut(c, k), mkeys, ro["snap"]["keys"])
+            return
+        mstates = [dec_hstate(e[1]) for e in mo[3]]
+        istates = [norm_istate(x) for x in ro["snap"]["states"]]
+        if mstates != istates:
+            ctx.disagree(f"{what}: registered _AnimationState fields", hist_cut(c, k), mstates, istates)
+            return
+
+
+def hist_in_guard(c):
+    ts = [op[1] for op in c["hist"] if op[0] == "tick"]
+    return c["cols"] >= 1 and c["rows"] >= 1 and all(t > 0 for t in ts) and all(a <= b for a, b in zip(ts, ts[1:]))
+
+
+def hist_oracle(ctx, c, r, stats):
+    """the property's relations over a whole call history of the real object.  Every animation a successful, valid animate
+    call started is followed by identity of its state object: as long as it is live (active, not reset by begin()) it must
+    stay registered across every call (registering another animation never replaces it), every due tick must advance it,
+    a looping one never becomes inactive, steps are speed_ms apart, a non-looping one stops within len+2*cols+2 steps,
+    tick never raises / sleeps / leaves the rows of the animations, the buffer keeps its shape."""
+    cols, rows = c["cols"], c["rows"]
+    if r["new"] != "ok":
+        ctx.fail("LCD() raised for a positive geometry", c, "object", r["new"], key="host-new")
+        return
+    info = []          # per tracked animation: the arguments it was started with, its observed step times, alive?
+    prev_tracked = []
+    ever_rows = set()
+    for k, (op, ro) in enumerate(zip(c["hist"], r["hist"])):
+        cur = ro["tracked"]
+        buf = ro["snap"]["buffer"]
+        if len(buf) != rows or any(len(x) != cols for x in buf):
+            ctx.fail(f"buffer shape changed by call #{k} {op[0]}", hist_cut(c, k), [rows, cols], buf, key="host-buffer-shape")
+            return
+        if op[0] == "animate":
+            valid = str(op[1]).lower() in CODE and 0 <= int(op[2]) < rows
+            if not valid:
+                if ro["status"] == "ok":
+                    # what animate does with an unknown style / a row outside the display is not the statement's subject
+                    # (the correspondence compares the ValueError); an accepted one leaves the relations without referent
+                    stats["hist_foreign_accepted"] = stats.get("hist_foreign_accepted", 0) + 1
+                    return
+            else:
+                if ro["status"] != "ok":
+                    ctx.fail("animate raised for a valid style and row", hist_cut(c, k), "ok", ro["status"], key="host-animate-raised")
+                    return
+                if ro["sleeps"]:
+                    ctx.fail("animate called a sleep function (must not block)", hist_cut(c, k), 0, ro["sleeps"], key="host-animate-sleeps")
+                    return
+                for ev in ro["events"]:
+                    if ev[0] != int(op[2]) or len(ev[1]) != cols:
+                        ctx.fail("animate wrote outside its row / not exactly the display width", hist_cut(c, k), [int(op[2]), cols], ev, key="host-animate-geometry")
+                        return
+                if not isinstance(ro["started"], int):
+                    ctx.fail("animate returned normally but the display's registry holds no new animation for it (LCD.tick will never advance it)",
+                             hist_cut(c, k), "one new registered animation", {"started": ro["started"], "keys": ro["snap"]["keys"]}, key="host-registry-not-registered")
+                    return
+                info.append({"style": str(op[1]).lower(), "row": int(op[2]), "text": op[3], "speed": max(0, int(op[4])), "loop": bool(op[5]),
+                             "steps": [], "alive": True, "call": k})
+                ever_rows.add(int(op[2]))
+        elif op[0] == "tick":
+            if ro["status"] != "ok":
+                ctx.fail("LCD.tick raised", hist_cut(c, k), "no exception", ro["status"], key="host-tick-raised")
+                return
+            if ro["sleeps"]:
+                ctx.fail("LCD.tick called a sleep function (must not block)", hist_cut(c, k), 0, ro["sleeps"], key="host-tick-sleeps")
+                return
+            for ev in ro["events"]:
+                if ev[0] not in ever_rows or len(ev[1]) != cols:
+                    ctx.fail("tick wrote outside the animations' rows / not exactly the display width", hist_cut(c, k), [sorted(ever_rows), cols], ev, key="host-geometry")
+                    return
+        if op[0] == "begin":
+            for a in info:
+                a["alive"] = False          # begin() resets the display: what becomes of running animations is not C18's subject
+            ever_rows.clear()
+        # (1) across any call but begin(): a live animation stays registered
+        for j, a in enumerate(info):
+            if not a["alive"] or j >= len(prev_tracked):
+                continue
+            was_active = prev_tracked[j][1][7]
+            if not cur[j][0]:
+                if was_active:
+                    desc = f"{a['style']} on row {a['row']} (loop={a['loop']}, started by call #{a['call']})"
+                    ctx.fail(f"call #{k} {op[0]}{tuple(op[1:]) if op[0] == 'animate' else ''} removed / replaced the live animation {desc} in the display's registry: "
+                             "it is still marked active but LCD.tick no longer advances it",
+                             hist_cut(c, k), "every live animation still registered", {"registered_keys": ro["snap"]["keys"], "lost": cur[j][1], "who": ro["snap"]["who"]},
+                             key="host-registry-replaced")
+                    return
+                a["alive"] = False           # a finished animation may be forgotten
+        # (2) per-animation relations at a tick
+        if op[0] == "tick":
+            now = op[1]
+            for j, a in enumerate(info):
+                if not a["alive"] or j >= len(prev_tracked):
+                    continue
+                sp, sc = prev_tracked[j][1], cur[j][1]
+                stepped = sp != sc
+                own_row_events = [ev for ev in ro["events"] if ev[0] == a["row"]]
+                was_active = sp[7]
+                if stepped and not was_active:
+                    ctx.fail("an inactive animation changed", hist_cut(c, k), sp, sc, key="host-inactive-step")
+                    return
+                if a["loop"] and not sc[7]:
+                    ctx.fail("a looping animation became inactive", hist_cut(c, k), "active", sc, key="host-loop-ended")
+                    return
+                if stepped:
+                    for t1 in a["steps"]:
+                        if 0 < t1 and now - t1 < a["speed"]:
+                            ctx.fail(f"two steps closer than speed_ms (animation #{j} of the history)", hist_cut(c, k), f"consecutive steps >= {a['speed']} ms apart",
+                                     {"steps_at": [t1, now], "all_steps": a["steps"] + [now]}, key="host-rate-limit")
+                            return
+                    a["steps"].append(now)
+                    if not a["loop"] and len(a["steps"]) > bound(len(a["text"]), cols):
+                        ctx.fail("non-looping animation still stepping after len+2*cols+2 steps", hist_cut(c, k), bound(len(a["text"]), cols), len(a["steps"]), key="host-termination")
+                        return
+                else:
+                    last = a["steps"][-1] if a["steps"] else 0
+                    due = was_active and (a["speed"] <= 0 or last <= 0 or now - last >= a["speed"])
+                    if due and not own_row_events:
+                        ctx.fail(f"a due tick (not early) did not advance a live animation (animation #{j} of the history: {a['style']} on row {a['row']}, loop={a['loop']})",
+                                 hist_cut(c, k), "step", {"state": sp, "now": now, "registered_keys": ro["snap"]["keys"]}, key="host-due-skipped")
+                        return
+            stats["hist_ticks"] = stats.get("hist_ticks", 0) + 1
+        else:
+            # no other call advances or alters a running animation
+            for j, a in enumerate(info):
+                if a["alive"] and j < len(prev_tracked) and prev_tracked[j][1] != cur[j][1] and op[0] in ("line", "clear"):
+                    ctx.fail(f"call #{k} {op[0]} changed the state of a running animation", hist_cut(c, k), prev_tracked[j][1], cur[j][1], key="host-foreign-step")
+                    return
+        prev_tracked = cur
+    stats["hist_steps"] = stats.get("hist_steps", 0) + sum(len(a["steps"]) for a in info)
+    for j, a in enumerate(info):
+        still = j < len(prev_tracked) and prev_tracked[j][1][7]
+        tally(stats, "hist_animation_fate", ("looping" if a["loop"] else "one-shot") + (", running at the end" if still else ", over at the end") + ("" if a["alive"] else " (reset by begin / forgotten)"))
+
+
+def hist_shape(c, r):
+    """classification of a history for the measured distribution"""
+    ops = c["hist"]
+    n_anim = sum(1 for o in ops if o[0] == "animate")
+    # finished-then-reregistered: an animate call made while an earlier tracked animation is already inactive
+    fin_then_reg = False
+    same_key_pair = False
+    live_pairs = set()
+    for k, (op, ro) in enumerate(zip(ops, r.get("hist", []))):
+        if op[0] == "animate" and k > 0 and isinstance(ro.get("started"), int):
+            prev = r["hist"][k - 1]["tracked"]
+            if any(reg and not f[7] for reg, f in prev):
+                fin_then_reg = True
+            for reg, f in prev:
+                if reg and f[7] and f[0] == str(op[1]).lower() and f[1] == int(op[2]):
+                    same_key_pair = True
+    return n_anim, fin_then_reg, same_key_pair
+
+
+def gen_hist_cases(ctx):
+    rng = ctx.rng
+    thorough = ctx.tier == "thorough"
+    cases = []
+
+    def ticks(t0, n, gap):
+        return [["tick", t0 + gap * (i + 1)] for i in range(n)], t0 + gap * n
+
+    # (B) exhaustive short prefixes over a boundary alphabet on a 2x2 display, each followed by a tail of ticks:
+    #   a = one-shot blink row 0 (over after 1 step)   b = looping scroll row 0   c = one-shot scroll row 0 (3 steps)
+    #   d = looping blink row 1    t = tick
+    alpha = {"a": ["animate", "blink", 0, "B", 0, False], "b": ["animate", "scroll", 0, "ab", 0, True],
+             "c": ["animate", "scroll", 0, "!", 0, False], "d": ["animate", "blink", 1, "Z", 0, True], "t": None}
+    def all_words(letters, maxlen):
+        out, frontier = [], [""]
+        for _ in range(maxlen):
+            frontier = [w + x for w in frontier for x in letters]
+            out += frontier
+        return out
+    words = all_words("abct", 5) if not thorough else sorted(set(all_words("abct", 6) + all_words("abcdt", 5)))
+    for w in words:
+        if w.count("t") == len(w) or len(w) < 3 or w.endswith("t"):
+            continue                       # at least one animate, ends with an animate (the tail follows)
+        hist, t = [], 0
+        for ch in w:
+            if ch == "t":
+                t += 1
+                hist.append(["tick", t])
+            else:
+                hist.append(list(alpha[ch]))
+        for _ in range(7):
+            t += 1
+            hist.append(["tick", t])
+        cases.append({"cols": 2, "rows": 2, "i2c": False, "hist": hist, "tag": "hist:exhaustive"})
+    # (A) finished-then-reregistered, structured: a one-shot animation (style s1 on the looping one's row or on the other
+    # row), a looping one (s2), ticks until the one-shot is over, then a third animate call whose (style, row) is that of the
+    # looping one / of the finished one / of neither, looping or not, then ticks until a one-shot third has finished and
+    # the looping one must still be running for a full period; speeds 0 and 3 (ticks 3 apart, some early ones in between)
+    j = 0
+    for cols in ([3, 8] if thorough else [3]):
+        for s1 in STYLES:
+            for r1 in (0, 1):
+                for s2 in STYLES:
+                    for third in ("same-as-looping", "same-as-finished", "other-style", "other-row"):
+                        for loop3 in (False, True):
+                            j += 1
+                            if not thorough and third != "same-as-looping" and rng.random() < 0.5:
+                                continue
+                            speed = [0, 3][rng.randrange(2)]
+                            gap = 3
+                            t1, t2 = mk_text(1 + j % 2, salt=j), mk_text([2, cols + 1, 1][j % 3], salt=j + 3)
+                            hist = [["animate", s1, r1, t1, speed, False], ["animate", s2, 0, t2, speed, True]]
+                            tk, t = ticks(0, bound(len(t1), cols) + 1, gap)
+                            hist += tk
+                            if third == "same-as-looping":
+                                s3, r3 = s2, 0
+                            elif third == "same-as-finished":
+                                s3, r3 = s1, r1
+                            elif third == "other-style":
+                                s3, r3 = STYLES[(CODE[s2] + 1) % 4], 0
+                            else:
+                                s3, r3 = s2, 1
+                            t3 = mk_text(1, salt=j + 9)
+                            hist.append(["animate", s3, r3, t3, speed, loop3])
+                            tk, t = ticks(t, bound(len(t3), cols) + len(t2) + cols + 4, gap)
+                            if j % 3 == 0:
+                                tk.insert(2, ["tick", tk[1][1] + 1])        # an early tick (1 ms after a step)
+                            hist += tk
+                            cases.append({"cols": cols, "rows": 2, "i2c": j % 2 == 0, "hist": hist, "tag": f"hist:finished-then-{third}"})
+    # (C) seeded random histories: 4..45 calls, few distinct (style, row) pairs so that they recur, texts short enough for
+    # one-shots to finish inside the history, line / clear in between, begin() and invalid animate calls now and then
+    for j in range(400 if thorough else 120):
+        cols = rng.choice([1, 2, 3, 5, 8, 16])
+        rows = rng.choice([1, 2, 2, 4])
+        unit = rng.choice([1, 3, 100])
+        pairs = [(rng.choice(STYLES), rng.randrange(rows)) for _ in range(rng.randint(1, 3))]
+        t = rng.choice([0, 0, 6, 999, (1 << 32) - 5])
+        hist = []
+        for _ in range(rng.randint(4, 45)):
+            x = rng.random()
+            if x < 0.22:
+                st, rw = rng.choice(pairs) if rng.random() < 0.8 else (rng.choice(STYLES), rng.randrange(rows))
+                if rng.random() < 0.06:
+                    st = rng.choice(["SCROLL", "Blink", "wave", ""])
+                if rng.random() < 0.06:
+                    rw = rng.choice([-1, rows, rows + 2])
+                hist.append(["animate", st, rw, mk_text(rng.choice([0, 1, 1, 2, cols, cols + 1]), salt=j + len(hist)),
+                             rng.choice([0, 0, unit, unit, -2, 1]), rng.random() < 0.4])
+            elif x < 0.90:
+                t += rng.choice([0, 1, 1, unit, unit, unit + 1, 2 * unit, max(0, unit - 1), 5 * unit + 3])
+                hist.append(["tick", max(t, 1)])
+                t = max(t, 1)
+            elif x < 0.94:
+                hist.append(["line", rng.randrange(rows) if rng.random() < 0.9 else rows, rng.choice(["xy", "", "W" * (cols + 2)])])
+            elif x < 0.97:
+                hist.append(["clear"])
+            elif x < 0.985:
+                hist.append(["begin"])
+            else:
+                hist.append(["animate", "wave", 0, "x", 0, True])
+        cases.append({"cols": cols, "rows": rows, "i2c": j % 3 == 0, "hist": hist, "tag": "hist:random"})
+    return cases
+
+
+def run_hist(ctx, stats):
+    cases = gen_hist_cases(ctx)
+    impl = C.run_impl("c18_impl.py", {"cases": cases}, timeout=1200)
+    model = ctx.model([hist_model_case(c) for c in cases]) if ctx.exe else [None] * len(cases)
+    nontrivial = set()
+    for c, r, m in zip(cases, impl, model):
+        if m is not None:
+            hist_compare(ctx, c, m, r)
+        if hist_in_guard(c):
+            hist_oracle(ctx, c, r, stats)
+        else:
+            stats["hist_outside_guard"] = stats.get("hist_outside_guard", 0) + 1
+        n_anim, fin, same = hist_shape(c, r)
+        stats.setdefault("hist_tags", {})
+        stats["hist_tags"][c["tag"]] = stats["hist_tags"].get(c["tag"], 0) + 1
+        tally(stats, "hist_calls_per_history", min(len(c["hist"]) // 10 * 10, 60))
+        tally(stats, "hist_animate_calls_per_history", min(n_anim, 8))
+        tally(stats, "hist_finished_then_registered", fin)
+        tally(stats, "hist_registered_next_to_live_same_style_and_row", same)
+        for op, ro in zip(c["hist"], r.get("hist", [])):
+            tally(stats, "hist_op", op[0])
+            if op[0] == "animate":
+                tally(stats, "hist_animate_result", ro["status"])
+        if fin and any(ro["events"] for op, ro in zip(c["hist"], r.get("hist", [])) if op[0] == "tick"):
+            nontrivial.add(repr(c["hist"][:8]) + repr((c["cols"], c["rows"], len(c["hist"]))))
+    return cases, len(nontrivial)
+
+
+# --------------------------------------------------------------------------------------------
 # device half
 # --------------------------------------------------------------------------------------------
 
@@ -1713,6 +2055,15 @@ def replay(data):
                 break
         _, setup, passes = effective_phases(d, nows, setup, passes)
         device_oracle(col, case, setup, passes, 0, {})
+    elif isinstance(case, dict) and "hist" in case:
+        r = C.run_impl("c18_impl.py", {"cases": [case]}, timeout=600)[0]
+        print("replay: call history on LCD(cols=%d, rows=%d)" % (case["cols"], case["rows"]))
+        for k, op in enumerate(case["hist"]):
+            print(f"  #{k} lcd.{op[0]}({', '.join(repr(x) for x in op[1:])})")
+        if hist_in_guard(case):
+            hist_oracle(col, case, r, {})
+        else:
+            print("replay: the case lies outside the oracle's guard (positive non-decreasing tick times, positive geometry)")
     elif isinstance(case, dict) and "anims" in case and "nows" in case:
         r = C.run_impl("c18_impl.py", {"cases": [case]}, timeout=600)[0]
         if host_in_guard(case):
@@ -1759,11 +2110,12 @@ def run(ctx: C.Ctx):
     run_injection(ctx, stats)
     run_injection_trees(ctx, stats)
     hcases, h_nt = run_host(ctx, stats)
+    rcases, r_nt = run_hist(ctx, stats)
     dindex, d_nt = run_device(ctx, stats)
     run_schedule_spec(ctx, stats, hcases, dindex)
     ctx.coverage.update({
-        "evaluations": len(hcases) + len(dindex) + stats.get("injection_shapes", 0) + stats.get("tree_shapes", 0),
-        "distinct_nontrivial": h_nt + d_nt,
+        "evaluations": len(hcases) + len(rcases) + len(dindex) + stats.get("injection_shapes", 0) + stats.get("tree_shapes", 0),
+        "distinct_nontrivial": h_nt + r_nt + d_nt,
         "rule": "host: (4 styles x cols in {1,2,3,8,16,20,40} x len in {0,1,cols-1,cols,cols+1,2cols} x loop x speed in {0,1,100} x tick schedule in {ontime,early,late,equal,burst}) "
                 "(quick: two speed/schedule picks per cell rotating over all 15 pairs, thorough: all, plus every other width 1..40 with two picks per cell), plus seeded random single-animation cases "
                 "(speeds -5..70000, mixed and burst schedules) and multi-animation cases with invalid styles/rows; "
